@@ -34,6 +34,15 @@ def check_consistency(chk, case, res, buflen):
             else:
                 if len(es) * 60 + 8 > buflen + 1 and es:
                     why = "more than one step per 60 input bytes"
+                # every returned member came from a header carrying the two-byte header magic: the header offsets
+                # follow from the sizes (8, then 60 + size rounded up to even further on each time)
+                buf = case[1][0]
+                off = 8
+                for e in es:
+                    if buf[off + 58:off + 60] != b"`\n":
+                        why = "a member was returned from a header (offset %d) that does not carry the two-byte header magic" % off
+                        break
+                    off += 60 + max(e["size"], 0) + (max(e["size"], 0) & 1)
                 for e in es:
                     if e["size"] < 0:
                         why = "a member with a negative size was returned"
